@@ -131,6 +131,14 @@ impl super::Connector for SocksConnector {
         };
         req.write_to(&mut server, PasswordAuth::optional()).await?;
         let resp = SocksResponse::read_from(&mut server).await?;
+        // a reply in the other version's format is not an answer to this request
+        if resp.version != self.version {
+            bail!(
+                "upstream server answers a SOCKS{} request with a SOCKS{} reply",
+                self.version,
+                resp.version
+            );
+        }
         if resp.cmd != SOCKS_REPLY_OK {
             bail!("upstream server failure: {:?}", resp.cmd);
         }
